@@ -5,6 +5,7 @@ import (
 	"context"
 	"errors"
 	"fmt"
+	"io"
 	"net/http"
 	"net/http/httptest"
 	"reflect"
@@ -623,6 +624,62 @@ func C13(r *h.Run) {
 		r.Sum.Evaluations += int(n.Load())
 		r.Sum.Distribution["close_vs_failure"] = int(n.Load())
 		r.Sample("close_vs_failure", map[string]any{"in": stress, "calls_completed": n.Load()})
+	}
+
+	// ---------- (2c) a client whose construction failed (an option named a compression that is
+	// not registered): every call fails with that error. Callers on G goroutines each read the
+	// error's metadata and note something there — as they may with any error they are handed ----
+	{
+		bad := connect.NewClient[h.Raw, h.Raw](&h.CannedClient{Build: func(*http.Request) (*http.Response, error) { return nil, errors.New("unreachable") }},
+			"http://verif.local/verif.Svc/M", connect.WithCodec(h.ToyCodec{}), connect.WithSendCompression("zstd"))
+		const G = 8
+		var wg sync.WaitGroup
+		start := make(chan struct{})
+		foreign := make([][]string, G)
+		codes := make([]connect.Code, G)
+		for g := 0; g < G; g++ {
+			wg.Add(1)
+			go func(g int) {
+				defer wg.Done()
+				<-start
+				var err error
+				switch g % 4 {
+				case 0:
+					_, err = bad.CallUnary(context.Background(), connect.NewRequest(&h.Raw{B: []byte("q")}))
+				case 1:
+					_, err = bad.CallServerStream(context.Background(), connect.NewRequest(&h.Raw{B: []byte("q")}))
+				case 2:
+					st := bad.CallClientStream(context.Background())
+					err = st.Send(&h.Raw{B: []byte("q")})
+					if err == nil || errors.Is(err, io.EOF) {
+						_, err = st.CloseAndReceive()
+					}
+				default:
+					st := bad.CallBidiStream(context.Background())
+					err = st.Send(&h.Raw{B: []byte("q")})
+					if err == nil || errors.Is(err, io.EOF) {
+						_, err = st.Receive()
+					}
+				}
+				codes[g] = connect.CodeOf(err)
+				var ce *connect.Error
+				if errors.As(err, &ce) {
+					foreign[g] = append([]string(nil), ce.Meta().Values("X-Seen-By")...)
+					ce.Meta().Add("X-Seen-By", fmt.Sprint("goroutine-", g))
+				}
+			}(g)
+		}
+		close(start)
+		wg.Wait()
+		in := map[string]any{"client": "NewClient(..., WithSendCompression(\"zstd\")) — zstd is not registered: construction failed", "goroutines": G, "each": "makes one call (unary / server / client / bidi by turns), reads the error's Meta() and adds X-Seen-By there"}
+		r.Eval("misconfigured_client", "shared construction error")
+		r.Sample("misconfigured_client", map[string]any{"in": in, "codes": fmt.Sprint(codes), "metadata_found_by_each": foreign})
+		for g := 0; g < G; g++ {
+			if len(foreign[g]) > 0 {
+				r.Fail(h.Failure{Key: "concurrency/error-value-shared", Family: "misconfigured_client", What: "the error one call returned carries what the caller of ANOTHER call noted in its error's metadata: the calls share one mutable error value", Input: in, Actual: map[string]any{"goroutine": g, "found": foreign[g]}})
+				break
+			}
+		}
 	}
 
 	// ---------- (3) pooled decompressors: after messages that end in each early-exit
